@@ -1,7 +1,377 @@
-(* C04 - web bundles; placeholder until the proofs land. *)
-From WP Require Import Base.Prelude Model.Bundle.
+(* C04 - Bundle writer output is a well-formed, canonical, self-consistent bundle.
+
+   "Every byte sequence the bundle writer emits without error is a well-formed
+   Web Bundle of the requested version as judged by an independent parser of
+   the format: correct magic and version, a section-length table that exactly
+   tiles the file with 'responses' last, index entries that each delimit
+   exactly one [headers, payload] response inside the responses section,
+   canonical CBOR throughout (shortest heads, maps sorted by encoded key, no
+   duplicates), and a trailing 8-byte length equal to the total size.  The
+   byte count the writer returns equals the number of bytes it handed to the
+   destination."
+
+   Statements only; proofs live in Proofs/BundleWrite*.v and
+   Proofs/CountingWriter.v.  Model = Model/Bundle.v (b_write = Bundle.WriteTo,
+   run_writes = CountingWriter.Write over a faulting destination); the format
+   is Spec/Bundle.v: the declarative WF v bs p and the executable judge
+   wf_parse.  Domain restrictions appearing as hypotheses:
+     wfb bs          - the output consists of bytes (the model's byte is N);
+     lenN bs < 2^64  - a Go slice is shorter than that (the footer holds a uint64);
+     sig_u64 b       - VouchedSubset.Authority is a uint64. *)
+From Coq Require Import Lia Permutation Sorted.
+From WP Require Import Base.Prelude Base.Decimal Model.Cbor Model.Http Model.Variants
+  Model.CertChain Model.Bundle.
+From WP Require Import Spec.Cbor Spec.Det Spec.Bundle.
+From WP Require Import Proofs.BaseLemmas Proofs.CborMap Proofs.Variants Proofs.BundleWriteBasics
+  Proofs.BundleWriteSpec Proofs.BundleWriteForm Proofs.BundleWriteWF Proofs.BundleWriteCases
+  Proofs.BundleWriteAgree Proofs.CountingWriter.
 Open Scope N_scope.
 
-Theorem c04_smoke : parse_magic (header_magic_bytes BV2 ++ [1]) = Ok (BV2, [1]).
-Proof. reflexivity. Qed.
-Print Assumptions c04_smoke.
+(* ======================= the independent parser =============================== *)
+Theorem wf_parse_sound : forall v bs p, wf_parse v bs = Some p -> WF v bs p.
+Proof. exact BundleWriteSpec.wf_parse_sound. Qed.
+Print Assumptions wf_parse_sound.
+
+Theorem wf_check_sound : forall v bs p, wf_check v bs p = true -> WF v bs p.
+Proof. exact BundleWriteSpec.wf_check_sound. Qed.
+Print Assumptions wf_check_sound.
+
+(* ======================= the writer's output is well formed ==================== *)
+(* ts: the index rows (url, variants value, entries in index order) the writer
+   computed; parsed_of b ts is the parsed view built from the bundle itself *)
+Theorem write_wf : forall b bs,
+  b_write b = Ok bs -> wfb bs -> lenN bs < two64 -> sig_u64 b ->
+  exists ts, index_pres (b_ver b) (groups_of (ients_of b)) = Ok ts /\
+             WF (b_ver b) bs (parsed_of b ts).
+Proof. exact BundleWriteWF.write_wf. Qed.
+Print Assumptions write_wf.
+
+(* the parsed view agrees with the bundle: sections present iff the fields are
+   set, index URLs = the distinct exchange URLs, the i-th response item is the
+   i-th exchange's (status, folded headers, body), found at one of the
+   locations the index lists for its URL *)
+Theorem write_agrees : forall b bs ts,
+  b_write b = Ok bs -> index_pres (b_ver b) (groups_of (ients_of b)) = Ok ts ->
+  let p := parsed_of b ts in
+  map fst (p_sections p)
+    = n_index :: (match b_ver b, b_primary b with BV2, Some _ => [n_primary] | _, _ => [] end)
+      ++ (match b_manifest b with Some _ => [n_manifest] | None => [] end)
+      ++ (match b_sigs b with Some _ => [n_signatures] | None => [] end) ++ [n_responses]
+  /\ p_primary p = (match b_ver b with BV1 => b_primary b | BV2 => None end)
+  /\ (forall u, In (n_primary, text_item u) (p_sections p) -> b_primary b = Some u)
+  /\ (forall u, In (n_manifest, text_item u) (p_sections p) -> b_manifest b = Some u)
+  /\ (forall u, In u (map ix_url (p_index p)) <-> In u (map bx_url (b_exchanges b)))
+  /\ NoDup (map ix_url (p_index p))
+  /\ Forall2 (fun x r => r_payload r = bx_body x /\
+                         Permutation (r_fields r)
+                           ((status_name, dec_of_Z (bx_status x)) ::
+                            map (fun nv => (lower (fst nv), join_comma (snd nv))) (bx_hdr x)))
+             (b_exchanges b) (p_responses p)
+  /\ (forall i x, nth_error (b_exchanges b) i = Some x ->
+        exists e, In e (p_index p) /\ ix_url e = bx_url x /\
+                  In (lenN (arr_head (lenN (p_responses p)))
+                        + lenN (flat_map rsp_bytes (firstn i (p_responses p))),
+                      lenN (rsp_bytes (rsp_of x))) (ix_locs e)).
+Proof. exact BundleWriteAgree.write_agrees. Qed.
+Print Assumptions write_agrees.
+
+(* the writer, in closed form: checks, then the spec-side serialisation *)
+Theorem write_normal_form : forall b, b_write b = b_write_nf b.
+Proof. exact BundleWriteForm.b_write_eq. Qed.
+Print Assumptions write_normal_form.
+
+(* ======================= consequences of WF (for any producer) ================== *)
+Theorem WF_footer : forall v bs p, WF v bs p ->
+  bs = file_body v p ++ [72] ++ be 8 (lenN bs) /\ lenN (file_body v p) + 9 = lenN bs.
+Proof. exact BundleWriteAgree.WF_footer. Qed.
+Print Assumptions WF_footer.
+
+Theorem WF_sections_tile : forall v bs p, WF v bs p ->
+  let hdr := magic v ++ (match p_primary p with Some u => text_item u | None => [] end)
+             ++ bstr_item (arr_head (2 * lenN (p_sections p))
+                           ++ flat_map (fun s => text_item (fst s) ++ uint_item (lenN (snd s)))
+                                       (p_sections p))
+             ++ arr_head (lenN (p_sections p)) in
+  bs = hdr ++ List.concat (map snd (p_sections p)) ++ [72] ++ be 8 (lenN bs)
+  /\ lenN hdr + lenN (List.concat (map snd (p_sections p))) + 9 = lenN bs
+  /\ (exists front rb, p_sections p = front ++ [(n_responses, rb)]).
+Proof. exact BundleWriteAgree.WF_sections_tile. Qed.
+Print Assumptions WF_sections_tile.
+
+Theorem WF_index_sorted_nodup : forall v bs p, WF v bs p ->
+  StronglySorted (fun a c => blt (index_key a) (index_key c)) (p_index p)
+  /\ NoDup (map ix_url (p_index p)).
+Proof. exact BundleWriteAgree.WF_index_sorted_nodup. Qed.
+Print Assumptions WF_index_sorted_nodup.
+
+(* ======================= the same, straight from the writer ===================== *)
+(* the last 8 bytes are the total size, big-endian, after the byte 0x48 *)
+Theorem write_footer : forall b bs,
+  b_write b = Ok bs -> lenN bs < two64 ->
+  exists body, bs = body ++ [72] ++ be 8 (lenN bs) /\ lenN body + 9 = lenN bs.
+Proof. exact BundleWriteAgree.write_footer. Qed.
+Print Assumptions write_footer.
+
+Theorem write_sections_tile : forall b bs,
+  b_write b = Ok bs -> lenN bs < two64 ->
+  exists secs front rb,
+    secs = front ++ [(n_responses, rb)] /\
+    let hdr := magic (b_ver b)
+               ++ (match b_ver b, b_primary b with BV1, Some u => text_item u | _, _ => [] end)
+               ++ bstr_item (arr_head (2 * lenN secs)
+                             ++ flat_map (fun s => text_item (fst s) ++ uint_item (lenN (snd s))) secs)
+               ++ arr_head (lenN secs) in
+    bs = hdr ++ List.concat (map snd secs) ++ [72] ++ be 8 (lenN bs)
+    /\ lenN hdr + lenN (List.concat (map snd secs)) + 9 = lenN bs.
+Proof. exact BundleWriteAgree.write_sections_tile. Qed.
+Print Assumptions write_sections_tile.
+
+Theorem write_index_sorted_nodup : forall b bs,
+  b_write b = Ok bs ->
+  exists idx,
+    In (n_index, index_body (b_ver b) idx) (sections_of b
+         (match index_pres (b_ver b) (groups_of (ients_of b)) with Ok ts => ts | _ => [] end))
+    /\ StronglySorted (fun a c => blt (index_key a) (index_key c)) idx
+    /\ NoDup (map ix_url idx)
+    /\ (forall u, In u (map ix_url idx) <-> In u (map bx_url (b_exchanges b))).
+Proof. exact BundleWriteAgree.write_index_sorted_nodup. Qed.
+Print Assumptions write_index_sorted_nodup.
+
+(* ======================= Ok / Err / Panic, exactly =============================== *)
+Theorem write_never_fuel : forall b, b_write b <> Fuel.
+Proof. exact BundleWriteCases.write_never_fuel. Qed.
+Print Assumptions write_never_fuel.
+
+Theorem write_ok_iff : forall b bs,
+  b_write b = Ok bs <->
+  exists ts, headers_ok b = true /\ index_pres (b_ver b) (groups_of (ients_of b)) = Ok ts
+             /\ prim_ok b /\ man_ok b /\ bs = final_bytes (b_ver b) (parsed_of b ts).
+Proof. exact BundleWriteWF.b_write_ok_iff. Qed.
+Print Assumptions write_ok_iff.
+
+(* panic: a URL that is not valid UTF-8 reaches EncodeTextString inside the index
+   callback (b1, or a URL with a single resource), or a b1 bundle has no primary
+   URL.  Groups are taken in order of first appearance of their URL (the Go map
+   iteration order is arbitrary; when several groups are bad, Go's outcome depends
+   on that order - the model fixes first-appearance order). *)
+Theorem write_panic_iff : forall b,
+  b_write b = Panic <->
+  headers_ok b = true /\
+  (IndexPanics b \/ (IndexFine b /\ b_ver b = BV1 /\ b_primary b = None /\ manifest_fine b)).
+Proof. exact BundleWriteCases.write_panic_iff. Qed.
+Print Assumptions write_panic_iff.
+
+Theorem write_err_iff : forall b,
+  b_write b = Err <->
+  DupHeader b \/
+  (headers_ok b = true /\
+   (IndexErrs b \/
+    (IndexFine b /\
+     ((b_ver b = BV2 /\ exists u, b_primary b = Some u /\ utf8_valid u = false)
+      \/ (b_ver b = BV2 /\ b_manifest b <> None)
+      \/ (exists u, b_manifest b = Some u /\ utf8_valid u = false)
+      \/ (b_ver b = BV1 /\ exists u, b_primary b = Some u /\ utf8_valid u = false))))).
+Proof. exact BundleWriteCases.write_err_iff. Qed.
+Print Assumptions write_err_iff.
+
+(* the header map of one exchange is refused iff two names coincide after case
+   folding (":status" included) *)
+Theorem header_map_refused_iff : forall st h,
+  encode_response_header st h = Err <->
+  ~ NoDup (status_name :: map (fun nv => lower (fst nv)) h).
+Proof. exact BundleWriteCases.erh_err_iff. Qed.
+Print Assumptions header_map_refused_iff.
+
+Theorem headers_ok_false_iff : forall b, headers_ok b = false <-> DupHeader b.
+Proof. exact BundleWriteCases.headers_ok_false_iff. Qed.
+Print Assumptions headers_ok_false_iff.
+
+(* grouping by URL, declaratively: the distinct URLs in order of first
+   appearance, each with the entries carrying it, in order *)
+Theorem group_entries_spec : forall es,
+  group_entries es = map (fun u => (u, filter (url_is u) es)) (first_urls es)
+  /\ NoDup (first_urls es) /\ (forall u, In u (first_urls es) <-> In u (map ie_url es)).
+Proof.
+  intros es. split; [exact (group_entries_eq es)|exact (first_urls_spec es)].
+Qed.
+Print Assumptions group_entries_spec.
+
+(* ======================= CountingWriter ============================================ *)
+(* for ALL chunkings cs and both failure modes *)
+Theorem run_writes_spec : forall cs d count,
+  let '(d', n, ok) := run_writes cs d count in
+  d_acc d' = d_acc d ++ accepted d cs
+  /\ n = count + lenN (accepted d cs)
+  /\ ok = match d_budget d with None => true | Some k => lenN (List.concat cs) <=? k end.
+Proof. exact CountingWriter.run_writes_spec. Qed.
+Print Assumptions run_writes_spec.
+
+Theorem run_writes_count_exact : forall cs d d' n ok,
+  run_writes cs d 0 = (d', n, ok) ->
+  d_acc d' = d_acc d ++ accepted d cs /\ n = lenN (d_acc d') - lenN (d_acc d).
+Proof. exact CountingWriter.run_writes_count_exact. Qed.
+Print Assumptions run_writes_count_exact.
+
+Theorem run_writes_prefix : forall cs d d' n ok,
+  run_writes cs d 0 = (d', n, ok) ->
+  exists k, d_acc d' = d_acc d ++ takeN k (List.concat cs) /\ k = n /\ k <= lenN (List.concat cs).
+Proof. exact CountingWriter.run_writes_prefix. Qed.
+Print Assumptions run_writes_prefix.
+
+Theorem run_writes_fault : forall cs d d' n ok k,
+  run_writes cs d 0 = (d', n, ok) -> d_budget d = Some k ->
+  (k < lenN (List.concat cs) -> ok = false /\ n <= k /\
+     match d_mode d with
+     | ErrOnly => d_acc d' = d_acc d ++ fit_prefix cs k
+     | ShortThenErr => d_acc d' = d_acc d ++ takeN k (List.concat cs) /\ n = k
+     end)
+  /\ (lenN (List.concat cs) <= k ->
+      ok = true /\ d_acc d' = d_acc d ++ List.concat cs /\ n = lenN (List.concat cs)).
+Proof. exact CountingWriter.run_writes_fault. Qed.
+Print Assumptions run_writes_fault.
+
+Theorem run_writes_unlimited : forall cs d d' n ok,
+  run_writes cs d 0 = (d', n, ok) -> d_budget d = None ->
+  ok = true /\ d_acc d' = d_acc d ++ List.concat cs /\ n = lenN (List.concat cs).
+Proof. exact CountingWriter.run_writes_unlimited. Qed.
+Print Assumptions run_writes_unlimited.
+
+(* WriteTo through the CountingWriter: the count returned is the number of bytes
+   the destination took, and those are a prefix of the bundle *)
+Theorem write_count_exact : forall b bs cs d d' n ok,
+  b_write b = Ok bs -> List.concat cs = bs -> run_writes cs d 0 = (d', n, ok) ->
+  n = lenN (d_acc d') - lenN (d_acc d)
+  /\ d_acc d' = d_acc d ++ takeN n bs /\ n <= lenN bs
+  /\ (ok = true -> d_acc d' = d_acc d ++ bs /\ n = lenN bs)
+  /\ (ok = true <-> match d_budget d with None => True | Some k => lenN bs <= k end).
+Proof. exact CountingWriter.write_count_exact. Qed.
+Print Assumptions write_count_exact.
+
+(* ==== non-vacuity ================================================================== *)
+Definition hd1 (k v : string) : bytes * list bytes := (s2b k, [s2b v]).
+Definition ex_vv : string := "Accept-Language;en;fr, Accept-Encoding;gzip;br".
+Definition vx (u vk body : string) : bexchange :=
+  {| bx_url := s2b u; bx_status := 200;
+     bx_hdr := [hd1 "Variants" ex_vv; hd1 "Variant-Key" vk; (s2b "X-Multi", [s2b "a"; s2b "b"])];
+     bx_body := s2b body |}.
+(* b1: primary in the header, manifest, signatures, a 2x2 variant set supplied in
+   shuffled order, and a second URL in between *)
+Definition ex_b1 : bundle :=
+  {| b_ver := BV1; b_primary := Some (s2b "https://example.com/");
+     b_manifest := Some (s2b "https://example.com/manifest.json");
+     b_sigs := Some {| sg_auth := [{| ac_cert := [1; 2; 3]; ac_ocsp := Some [4]; ac_sct := None |}];
+                       sg_vouched := [{| vs_authority := 0; vs_sig := [9; 9]; vs_signed := [7] |}] |};
+     b_exchanges := [ vx "https://example.com/" "fr;br" "FRBR";
+                      {| bx_url := s2b "https://example.com/style.css"; bx_status := 404;
+                         bx_hdr := [hd1 "Content-Type" "text/css"]; bx_body := [] |};
+                      vx "https://example.com/" "en;gzip" "ENGZ";
+                      vx "https://example.com/" "fr;gzip" "FRGZ";
+                      vx "https://example.com/" "en;br" "ENBR" ];
+     b_taint := false |}.
+(* b2: three URLs of different lengths inserted out of key order, primary section *)
+Definition ex_b2 : bundle :=
+  {| b_ver := BV2; b_primary := Some (s2b "https://example.com/zz"); b_manifest := None; b_sigs := None;
+     b_exchanges := [ {| bx_url := s2b "https://example.com/zz"; bx_status := 200;
+                         bx_hdr := [hd1 "Content-Type" "text/html"; hd1 "A" "1"]; bx_body := s2b "<p>" |};
+                      {| bx_url := s2b "https://example.com/a/long/path"; bx_status := 301;
+                         bx_hdr := [hd1 "Location" "/zz"]; bx_body := [] |};
+                      {| bx_url := s2b "b"; bx_status := 999; bx_hdr := []; bx_body := [0; 255] |} ];
+     b_taint := false |}.
+
+Definition judged (b : bundle) : option (N * list bytes * list (bytes * list (N * N))) :=
+  match b_write b with
+  | Ok bs => match wf_parse (b_ver b) bs with
+             | Some p => Some (lenN bs, map fst (p_sections p),
+                               map (fun e => (ix_url e, ix_locs e)) (p_index p))
+             | None => None
+             end
+  | _ => None
+  end.
+
+(* the independent parser accepts what the writer emits; the b1 variant set is
+   listed row-major (en;gzip  en;br  fr;gzip  fr;br) although supplied shuffled *)
+Example ex_b1_judged :
+  judged ex_b1 =
+  Some (778, [n_index; n_manifest; n_signatures; n_responses],
+        [(s2b "https://example.com/", [(148, 110); (368, 108); (258, 110); (1, 108)]);
+         (s2b "https://example.com/style.css", [(109, 39)])]).
+Proof. vm_compute. reflexivity. Qed.
+
+(* index order is by ENCODED key: the 1-byte URL first, then by length *)
+Example ex_b2_judged :
+  option_map (fun r => (snd (fst r), map fst (snd r))) (judged ex_b2) =
+  Some ([n_index; n_primary; n_responses],
+        [s2b "b"; s2b "https://example.com/zz"; s2b "https://example.com/a/long/path"]).
+Proof. vm_compute. reflexivity. Qed.
+
+(* the hypotheses of write_wf hold of these *)
+Example ex_hyps :
+  (exists bs, b_write ex_b1 = Ok bs /\ wfb bs /\ lenN bs < two64) /\ sig_u64 ex_b1 /\
+  (exists bs, b_write ex_b2 = Ok bs /\ wfb bs /\ lenN bs < two64) /\ sig_u64 ex_b2.
+Proof.
+  split; [|split; [|split]].
+  - destruct (b_write ex_b1) as [bs| | |] eqn:E; try (vm_compute in E; discriminate).
+    exists bs. split; [reflexivity|]. vm_compute in E. inversion E; subst bs.
+    split; [apply wfbb_wfb; vm_compute; reflexivity|vm_compute; reflexivity].
+  - repeat constructor.
+  - destruct (b_write ex_b2) as [bs| | |] eqn:E; try (vm_compute in E; discriminate).
+    exists bs. split; [reflexivity|]. vm_compute in E. inversion E; subst bs.
+    split; [apply wfbb_wfb; vm_compute; reflexivity|vm_compute; reflexivity].
+  - exact I.
+Qed.
+
+(* tampering is caught by the judge: wrong trailing length, swapped index order *)
+Example ex_tamper :
+  match b_write ex_b2 with
+  | Ok bs => (wf_parse BV2 (removelast bs ++ [0]), wf_parse BV1 bs, wf_parse BV2 (bs ++ [0]))
+  | _ => (None, None, None)
+  end = (None, None, None).
+Proof. vm_compute. reflexivity. Qed.
+
+(* each refusal / panic case occurs *)
+Definition with_x (b : bundle) (xs : list bexchange) : bundle :=
+  {| b_ver := b_ver b; b_primary := b_primary b; b_manifest := b_manifest b; b_sigs := b_sigs b;
+     b_exchanges := xs; b_taint := false |}.
+Example ex_outcomes :
+  (* duplicate header name after folding *)
+  b_write (with_x ex_b2 [{| bx_url := s2b "u"; bx_status := 200;
+                            bx_hdr := [hd1 "A" "1"; hd1 "a" "2"]; bx_body := [] |}]) = Err /\
+  (* two resources for one URL in b2 *)
+  b_write (with_x ex_b2 [vx "u" "en;br" "1"; vx "u" "fr;br" "2"]) = Err /\
+  (* incomplete variant coverage in b1 *)
+  b_write (with_x ex_b1 [vx "u" "en;br" "1"; vx "u" "fr;br" "2"]) = Err /\
+  (* overlapping variant coverage in b1 *)
+  b_write (with_x ex_b1 [vx "u" "en;br" "1"; vx "u" "fr;br" "2"; vx "u" "en;gzip" "3";
+                         vx "u" "fr;gzip" "4"; vx "u" "fr;gzip" "5"]) = Err /\
+  (* manifest in b2 *)
+  b_write {| b_ver := BV2; b_primary := None; b_manifest := Some (s2b "https://m/"); b_sigs := None;
+             b_exchanges := []; b_taint := false |} = Err /\
+  (* b1 without primary URL: nil dereference *)
+  b_write {| b_ver := BV1; b_primary := None; b_manifest := None; b_sigs := None;
+             b_exchanges := []; b_taint := false |} = Panic /\
+  (* a URL that is not valid UTF-8 *)
+  b_write (with_x ex_b2 [{| bx_url := [255]; bx_status := 200; bx_hdr := []; bx_body := [] |}]) = Panic /\
+  b_write {| b_ver := BV2; b_primary := Some [255]; b_manifest := None; b_sigs := None;
+             b_exchanges := []; b_taint := false |} = Err.
+Proof. vm_compute. repeat split. Qed.
+
+(* a destination failing after 20 bytes, fed the bundle in 7-byte chunks *)
+Fixpoint chunks (fuel : nat) (k : N) (bs : bytes) : list bytes :=
+  match fuel with
+  | O => [bs]
+  | S f => match splitN bs k with Some (a, r) => a :: chunks f k r | None => [bs] end
+  end.
+Example ex_count :
+  match b_write ex_b2 with
+  | Ok bs =>
+      let cs := chunks 100 7 bs in
+      (bytes_eqb (List.concat cs) bs,
+       let '(d, n, ok) := run_writes cs {| d_acc := []; d_budget := Some 20; d_mode := ErrOnly |} 0 in
+       (lenN (d_acc d), n, ok),
+       let '(d, n, ok) := run_writes cs {| d_acc := []; d_budget := Some 20; d_mode := ShortThenErr |} 0 in
+       (lenN (d_acc d), n, ok),
+       let '(d, n, ok) := run_writes cs {| d_acc := []; d_budget := None; d_mode := ErrOnly |} 0 in
+       (n =? lenN bs, bytes_eqb (d_acc d) bs, ok))
+  | _ => (false, (0, 0, false), (0, 0, false), (false, false, false))
+  end = (true, (14, 14, false), (20, 20, false), (true, true, true)).
+Proof. vm_compute. reflexivity. Qed.
